@@ -1,5 +1,6 @@
 """C10 Interpreter sessions keep definitions and survive failed calls unchanged."""
 import itertools
+import os
 
 from harness import core, session
 from harness.props import common
@@ -45,11 +46,16 @@ COMMANDS = {
     "compr_abort": ("[1 / (2 - z1) for z1 in [1, 2, 3]]", "", True),
     "read_z1": ("z1", "", True),
     "block_fail": ("do def inblock = 3; error 12 finally println('fin') end", "def inblock = 3; println('fin')", True),
+    # definitions made by a loop body before the loop fails are definitions "made before the point at which the call failed"
+    "loop_def_fail": ("for w1 in [1, 2] do def inloop = w1 * 10; if w1 == 2 then error 'in loop' end", "def inloop = 20", True),
+    "read_inloop": ("inloop", "", None),
+    "while_def_fail": ("def wn = 0; while wn < 3 do wn += 1; def inwhile = wn; if wn == 2 then error 'w' end", "def wn = 2; def inwhile = 2", True),
+    "read_inwhile": ("[wn, inwhile]", "", None),
 }
 
 
-DEFINES = {"def_x": ["x"], "def_x0": ["x0"], "def_q": ["qq"], "def_then_fail": ["late", "late2"]}
-READS = {"read_x": "x", "read_q": "qq", "read_late": "late2", "assign_x": "x"}
+DEFINES = {"def_x": ["x"], "def_x0": ["x0"], "def_q": ["qq"], "def_then_fail": ["late", "late2"], "loop_def_fail": ["inloop"], "while_def_fail": ["inwhile"]}
+READS = {"read_x": "x", "read_q": "qq", "read_late": "late2", "assign_x": "x", "read_inloop": "inloop", "read_inwhile": "inwhile"}
 
 
 def run_history(cmds, interleave=None):
@@ -109,7 +115,7 @@ def _history_worker(hs):
         for k, (c, o) in enumerate(zip(h, outs)):
             if c in READS and READS[c] in defined and o[0][0] != 'val':
                 viols.append(f"`{COMMANDS[c][0]}` gives {o[0]} although `{READS[c]}` was defined by an earlier call (history {cmds[:k + 1]})")
-            if c in DEFINES and (o[0][0] == 'val' or c == "def_then_fail"):
+            if c in DEFINES and (o[0][0] == 'val' or c in ("def_then_fail", "loop_def_fail", "while_def_fail")):
                 defined.update(DEFINES[c])
         # (2) erasure: the surviving calls behave as if the failed remainders had never run
         if any(o[0][0] in ('rt', 'syn') for o in outs):
@@ -136,6 +142,50 @@ def _history_worker(hs):
                 s2.close()
         out.append((outs, viols))
     return out
+
+
+def private_module_dirs(ctx):
+    import itertools
+    import shutil
+    import tempfile
+    from ckl.interpreter import Interpreter
+    from ckl.values import ValueList, ValueString, StringOutput
+    from ckl.errors import CklRuntimeError, CklSyntaxError
+    tmp = tempfile.mkdtemp(prefix="c10dirs")
+    try:
+        content = {"A": {"Twin": "def who = 'A'; def n = [0]; def tick() do n[0] = n[0] + 1; n[0] end;", "OnlyA": "def only = 'a';"},
+                   "B": {"Twin": "def who = 'B'; def n = [100]; def tick() do n[0] = n[0] + 1; n[0] end; def extra = 1;", "OnlyB": "def only = 'b';"}}
+        for inst, mods in content.items():
+            os.makedirs(os.path.join(tmp, inst))
+            for m, src in mods.items():
+                open(os.path.join(tmp, inst, m + ".ckl"), "w").write(src)
+        steps = [("A", "require Twin; Twin->who", "'A'"), ("B", "require Twin; Twin->who", "'B'"), ("A", "Twin->tick()", "1"), ("B", "Twin->tick()", "101"),
+                 ("A", "require OnlyA; OnlyA->only", "'a'"), ("B", "require OnlyA", "ERR"), ("B", "require OnlyB; OnlyB->only", "'b'"), ("A", "require OnlyB", "ERR"),
+                 ("B", "Twin->extra", "1"), ("A", "Twin->extra", "NULL"), ("A", "require Twin as T2; T2->tick()", "2"), ("B", "require Twin as T2; T2->tick()", "102")]
+        for legacy, order in itertools.product((True, False), (("A", "B"), ("B", "A"))):
+            its = {}
+            for inst in order:
+                it = Interpreter(False, legacy)
+                it.setStandardOutput(StringOutput())
+                it.base_environment.put("checkerlang_module_path", ValueList().addItem(ValueString(os.path.join(tmp, inst))))
+                its[inst] = it
+            seq = sorted(steps, key=lambda st: (steps.index(st) // 2, order.index(st[0])))     # pairwise, the first-created instance first
+            for inst, src, want in seq:
+                try:
+                    with core.time_limit(5):
+                        got = str(its[inst].interpret(src, "c10"))
+                except (CklRuntimeError, CklSyntaxError):
+                    got = "ERR"
+                except (Exception, core.Timeout) as e:   # noqa
+                    got = "EXC " + type(e).__name__
+                ctx.seen(("dirs", legacy, order, inst, src), nontrivial=True)
+                ctx.count("private_module_dir_steps")
+                if got != want:
+                    ctx.violation("oracle", f"instance {inst} (own module directory; created {'first' if order[0] == inst else 'second'}, legacy={legacy}): `{src}` gives {got}, "
+                                  f"with only its own modules it is {want}", {"op": "interleaved", "commands": [x[1] for x in seq], "who": [x[0] for x in seq]})
+                    break
+    finally:
+        shutil.rmtree(tmp, ignore_errors=True)
 
 
 def run(ctx):
@@ -186,6 +236,9 @@ def run(ctx):
             if alone != mine:
                 ctx.violation("oracle", f"interpreter {w} behaves differently when interleaved with another instance: {mine} vs alone {alone}",
                               {"op": "interleaved", "commands": [COMMANDS[c][0] for c in h], "who": who})
+    # (4) instances with their OWN module directories: a module name means, in each instance, the file on that instance's path — whatever
+    # another instance in the same process has already loaded under that name (different content, or no such module at all)
+    private_module_dirs(ctx)
     # ---------------- model
     if ctx.build.ok:
         resp = core.run_driver(reqs)
